@@ -29,6 +29,7 @@ func (P) Rule() string {
 		"(b) a block of `seq` words: EVERY word over the 9-letter alphabet {req a,b,c; res a,b,c; export; export-and-reset; reset} up to length 5 (quick) / 7 (thorough), every word with a failing call " +
 		"over the 15-letter alphabet (+ failing response a,b,c; failing request a,b,c) up to length 4 / 5 and, up to renaming of the IDs, of length 5 / 6, each run on a fresh Logger, or " +
 		"(b') a `bulk N i…` history (N = 255..4098 requests, all but 1-17 completed, one export-and-reset, then a duplicate and a response for every entry left), or " +
+		"(b'') a `rep n pre unit post` history: the round `unit` repeated n = 255..4097 times after `pre`, then `post`, or " +
 		"(c) a concurrent run (2-8 goroutines; random programs over own/shared IDs with slow and failing bodies, or duplicate storms: every goroutine calls about the same ID, held in its body read " +
 		"until all are in flight) checked for linearisability, the linearisation replayed by the model; " +
 		"(d) an `hpark` schedule: a history, then an export / reset HANDLER call during whose answer another connection makes 1-2 calls (every such schedule over 2 IDs); " +
